@@ -291,9 +291,12 @@ def _vm_crosscheck_chunk(lines, outputs, spec, tag):
                 "  (combine (map N.of_nat (seq 0 (length cases))) cases).\n" % ("true" if spec else "false"))
         f.write("Eval vm_compute in (map fst bad).\n")
     # a large stack: the parser and the .vo writer recurse over the long byte-list literals
+    # time allowed: a minute and a half plus 15 s per case, at most 15 minutes; a chunk that needs more is halved
+    # by the caller, a single case that needs more than 105 s of vm_compute is left out (and counted)
+    limit = min(900, 90 + 15 * len(lines))
     rc, out = sh("ulimit -s unlimited 2>/dev/null || ulimit -s 1000000 2>/dev/null; "
-                 "exec timeout 1200 coqc -noglob -Q %s WF %s" % (os.path.join(COQ, "theories"), path),
-                 cwd=WORK, timeout=1300)
+                 "exec timeout %d coqc -noglob -Q %s WF %s" % (limit, os.path.join(COQ, "theories"), path),
+                 cwd=WORK, timeout=limit + 100)
     for ext in (".v", ".vo", ".vok", ".vos", ".glob"):
         try:
             os.remove(os.path.join(WORK, name + ext))
